@@ -4,7 +4,7 @@ contents and is not statically decidable; this check decides its structural
 necessary conditions (DESIGN.md 4/C04)."""
 from .. import runtimerules as RR
 from ..locks import LockAnalysis
-from ..channelrules import rule_empty_drained, rule_cursor_pair
+from ..channelrules import rule_empty_drained, rule_cursor_pair, rule_cursor_copy
 
 EXPLANATION = (
     "Static path analysis over the clang CFGs of source.c, sink.c, filter.c and "
@@ -41,6 +41,7 @@ def run(ctx, res):
     # the channel clauses every flush loop depends on (anchored in channel.c)
     rule_empty_drained(prog, res)
     rule_cursor_pair(prog, res, LockAnalysis(prog))
+    rule_cursor_copy(prog, res, LockAnalysis(prog))
     res.require_min("PAIR", 4)
     res.require_min("NOT-AFTER", 2)
     res.require_min("LOOP-UNTIL", 1)
